@@ -34,11 +34,19 @@ Sensitivity (quick tier, seed 1, one mutant at a time on a scratch copy):
   * ``value = part[eoh + 4 : -2]`` -> ``-1`` ............................... caught (C30.multipart_exact)
   * ``len(parts) > config.max_parts`` -> ``>=`` ........................... caught (C30.limit_parts_below_max_rejected)
   * ``except Exception`` in parse_body_arguments narrowed to
-    ``except HTTPInputError`` (UnicodeDecodeError escapes) ............... caught (crash.UnicodeDecodeError)
+    ``except HTTPInputError`` (UnicodeDecodeError escapes) ............... caught (C30.other_exception)
   * quoted-boundary stripping removed ................................... caught (C30.multipart_exact)
   * ``eoh > config.max_part_header_size`` check removed .................. caught (C30.limit_header_over_accepted)
   * ``_parseparam``: quote counting removed (split on every ``;``) ....... caught (C30.multipart_exact)
   * ``parse_qs_bytes`` keep_blank_values dropped ......................... caught (C30.urlencoded_exact)
+
+Open findings on the current tree (known_findings.d/C30.json, write-ups in findings_inbox/):
+  * F-C30-max-parts-off-by-one: a body with exactly ``max_parts`` parts is rejected (the empty text
+    before the first delimiter is counted); sig ``C30.limit_parts_at_max_rejected``.
+  * F-C30-rfc2231-quote-backslash: ext-value parameters whose value contains ``"`` or ``\\`` come back
+    with the escaping added by ``email.utils.decode_params``; sig
+    ``C30.multipart_exact.rfc2231_dquote_or_backslash``.
+  Both proposed patches were applied to a scratch copy: no exclusions left, all clauses quiet.
 """
 from hypothesis import strategies as st
 
@@ -55,7 +63,7 @@ from tornado.httputil import (
 )
 
 PROPERTY = "C30"
-READY = False
+READY = True
 RULE = (
     "Hypothesis: forms of <=6 items (names/filenames from ASCII, punctuation ; = % ' * & +, controls, "
     "non-ASCII incl. astral; values/contents glued from CRLF, '--', boundary-like and header-like "
@@ -700,6 +708,6 @@ PARTS = {"form": run_form, "mutate": run_mutate, "arbitrary": run_arbitrary}
 
 def main(ctx):
     ctx.run_replays(PARTS)
-    ctx.explore(form_s, run_form, ctx.n(1500, 100000), name="form")
-    ctx.explore(mutate_s, run_mutate, ctx.n(1200, 60000), name="mutate")
-    ctx.explore(arbitrary_s, run_arbitrary, ctx.n(1000, 60000), name="arbitrary")
+    ctx.explore(form_s, run_form, ctx.n(1200, 100000), name="form")
+    ctx.explore(mutate_s, run_mutate, ctx.n(900, 60000), name="mutate")
+    ctx.explore(arbitrary_s, run_arbitrary, ctx.n(700, 60000), name="arbitrary")
